@@ -817,8 +817,9 @@ class InvalidVoteEliminator:
     """Only allow through votes that are declared valid by a given validator.
 
     Calls the `validate()` method of the validator for each of the keys of the
-    input dictionary; if an :class:`vote.VoteError` is raised, does not
-    include the vote in the output.
+    input dictionary; if an :class:`vote.VoteError` or a
+    :class:`candidate.CandidateError` is raised, does not include the vote in
+    the output.
 
     :param validator: The vote validator to use. Look for some in the
         :mod:`vote` module.
@@ -835,7 +836,8 @@ class InvalidVoteEliminator:
         for one_vote in votes.keys():
             try:
                 self.validator.validate(one_vote)
-            except votelib.vote.VoteError:
+            except (votelib.vote.VoteError,
+                    votelib.candidate.CandidateError):
                 to_remove.append(one_vote)
         if to_remove:
             votes = votes.copy()
